@@ -561,7 +561,7 @@ def doc_check(u, op, ans):
     """the C08 invariant on every node ever seen, after any call, whatever it raised; tree edits and rendering calls
     that are legal must not raise"""
     if op is not None and ans != 'ok' and op[0] in ('append', 'insb', 'rm', 'render', 'clear', 'rebuild', 'make'):
-        sig = 'legal-edit-refused' if op[0] in ('append', 'insb', 'rm') else 'document-call-raises'
+        sig = ('legal-edit-refused:' if op[0] in ('append', 'insb', 'rm') else 'document-call-raises:') + ans[4:].split(':')[0]
         probs = consistency_problems(u)
         return (sig, '%s answered %s%s' % (op, ans, ('; afterwards: ' + '; '.join(probs[:3])) if probs else ''))
     probs = consistency_problems(u)
